@@ -5,7 +5,7 @@ import JxlModel.Model.Enc.Frame
 
 Plan grammar (whitespace separated, one image per line):
 ```
-img W H BITS FLOATEXP ORIENT GRAY BUF16 NEC {TY DIMSHIFT BITS ALPHAASSOC}*NEC ANIM [NUM DEN LOOPS TC]
+img W H BITS FLOATEXP ORIENT GRAY BUF16 NEC {TY DIMSHIFT BITS ALPHAASSOC}*NEC ANIM [NUM DEN LOOPS TC] [icc ANS PLANMODE HEXPROFILE]
 frames N { frame TY UPS {ECUPS}*NEC GSHIFT HAVECROP X0 Y0 W H BMODE BALPHA BCLAMP BSRC
            {MODE ALPHA CLAMP SRC}*NEC DUR ISLAST SAVEREF SAVEBEFORECT GAB EPFITERS
            wp 1 | wp 0 P1 P2 P3A P3B P3C P3D P3E W0 W1 W2 W3
@@ -114,7 +114,22 @@ def imgHdr : P ImgHdr := do
       let d ← bool
       pure (some (a, b, c, d))
     else pure none
-  pure { w, h, bits, floatExp := if fe == 0 then none else some fe, orientation := orient, gray, buf16, ecs, anim := an }
+  -- optional: `icc ANS PLANMODE <hex profile>` embeds the profile through the ICC command encoder
+  let icc ← (do
+    let st ← get
+    match st with
+    | "icc" :: _ => do
+      let _ ← tok
+      let ans ← bool
+      let pm ← nat
+      let hx ← tok
+      match bytesOfHex hx with
+      | some prof =>
+        let plan := Jxl.Icc.autoPlan pm [] prof
+        pure (some (iccStreamBits ans (Jxl.Icc.encodeIcc plan prof)))
+      | none => failure
+    | _ => pure none)
+  pure { w, h, bits, floatExp := if fe == 0 then none else some fe, orientation := orient, gray, buf16, ecs, anim := an, icc }
 
 def framePlan (nec : Nat) : P FramePlan := do
   kw "frame"
